@@ -383,7 +383,7 @@ func judge(format string, u unit, limit int, q string, exp *expected, status int
 		if !ok {
 			ev.Unbound("decoder: " + err.Error())
 		}
-		fail("malformed("+m.what+")", "", fmt.Sprintf("%d-byte body is not a well-formed %s response: %s", len(body), format, m.what))
+		fail("malformed("+m.what+")", "", fmt.Sprintf("the body is not a well-formed %s response: %s", format, m.what))
 		if format != "json" || m.what != "invalid-utf8" {
 			return kinds
 		}
@@ -486,7 +486,7 @@ func errorText(format string, body []byte) string {
 			return trimQ(strconv.QuoteToASCII(j.Error))
 		}
 	}
-	return fmt.Sprintf("%d-byte body", len(body))
+	return "(no error field in the body)"
 }
 
 // decodeJSONLenient: Go's decoder replaces invalid UTF-8 by U+FFFD instead of failing.
